@@ -24,13 +24,14 @@ ORACLES = [
     (r'impl Timestamp / fn (new|extract|date|time)|impl DateTime for Timestamp|impl Date / fn (and_time|and_zero_time|and_hms)', ['ts_split']),
     (r'time :: impl Time / fn (try_from_hms|is_valid|validate_hms|extract|from_hms_unchecked|try_from_usecs)|common :: fn is_valid_time', ['time_tuple']),
     (r'time :: impl Time / fn (add_interval_dt|sub_interval_dt)', ['time_add_interval']),
-    (r'interval :: impl Interval(YM|DT) / fn (try_from_ym|is_valid_ym|try_from_dhms|is_valid|extract|from_ym_unchecked|from_dhms_unchecked)', ['interval_ctor']),
+    (r'interval :: impl Interval(YM|DT) / fn (try_from_ym|is_valid_ym|try_from_dhms|is_valid|extract|from_ym_unchecked|from_dhms_unchecked|is_valid_months|try_from_months|is_valid_usecs|try_from_usecs)', ['interval_ctor']),
     (r'oracle :: impl (From<Timestamp> for Date|Date / fn (try_from_usecs|is_valid_date|new))', ['od_from_timestamp']),
     (r'oracle :: impl Date / fn (add|sub)_days|oracle :: impl Timestamp / fn oracle_(add|sub)_days|kani::od_add_days', ['od_add_days']),
     (r'timestamp :: impl Timestamp / fn (add|sub)_days|kani::ts_(add|sub)_days', ['ts_add_days']),
     (r'fn (mul_f64|div_f64)$|kani::(dt|ym)_(mul|div)_f64|kani::(mul|div)_f64_', ['scale_f64']),
     (r'kani::scan_parse_fraction', ['fraction_round', 'parse_grid']),
     (r'oracle :: impl Date / fn sub_date$|kani::od_sub_date', ['od_sub_date']),
+    (r'common :: fn is_valid_time|impl Time / fn try_from_usecs|impl From<IntervalDT> for Time|impl From<Time> for IntervalDT', ['time_interval_conv']),
     (r'impl DateTime for \w+ / fn second$|kani::second_accessor', ['second_accessor']),
     (r'impl Date / fn and_hms|impl From<Timestamp> for Time / fn from', ['and_hms']),
     (r'impl (Date|Timestamp) / fn (add_time|sub_time|sub_timestamp|sub_date|add_interval_dt|sub_interval_dt)|impl Interval(DT|YM) / fn (add|sub)_interval_(dt|ym)|impl (Timestamp|IntervalDT|IntervalYM) / fn try_from_(usecs|months)', ['linear_arith']),
